@@ -397,6 +397,8 @@ class Array(metaclass=MetaArray):
                             dshape.append(len(shape))
                         else:
                             shape.append(ndim)
+                    if any(dd < 0 for dd in shape):
+                        raise ValueError(f"negative dimension in {shape}")
                 # now we have shape, dshape
                 shape = shape
                 info.dshape = dshape
